@@ -68,5 +68,17 @@ pub open spec fn seg_post(k0: Knot, k1: Knot, r: Segment<Poly1>) -> bool {
             seg_post(*old(prev_knot), *final(prev_knot), r),
 //@end
 
+/// C06 corollary: a line through (x0,y0) and (x1,y1) is their straight-line interpolant at EVERY x
+/// (with seg_post and the selection rule of C02 this is the property's "evaluated at any x between two knots" clause)
+pub proof fn lemma_line_is_interpolant(c0: real, c1: real, x0: real, y0: real, x1: real, y1: real, x: real)
+    requires c0 + c1 * x0 == y0, c0 + c1 * x1 == y1, x0 != x1,
+    ensures (c0 + c1 * x) * (x1 - x0) == y0 * (x1 - x0) + (y1 - y0) * (x - x0),
+{
+    let h = x1 - x0;
+    assert(c1 * h == y1 - y0) by(nonlinear_arith) requires c0 + c1 * x0 == y0, c0 + c1 * x1 == y1, h == x1 - x0;
+    assert((c0 + c1 * x) * h - y0 * h == (c1 * (x - x0)) * h) by(nonlinear_arith) requires c0 + c1 * x0 == y0;
+    assert((c1 * (x - x0)) * h == (c1 * h) * (x - x0)) by(nonlinear_arith);
+}
+
 } // verus!
 fn main() {}
